@@ -205,6 +205,32 @@ impl<'text, Sc> Context<'text, Sc> where Sc: Scanner {
         }
     }
 
+    /// Returns a `Context` with the same error transforms but no `ErrorSink`.
+    /// The `ErrorSink` of this `Context` and its clones is left in place.
+    #[must_use]
+    pub fn without_error_sink(&self) -> Self {
+        Context {
+            shared: Rc::new(RwLock::new(SharedContext { error_sink: None })),
+            local: Rc::clone(&self.local),
+            locked: self.locked,
+        }
+    }
+
+    /// Returns a locked `Context` with the same `ErrorSink` but no error
+    /// transforms. The transforms of this `Context` and its clones are left in
+    /// place.
+    #[must_use]
+    pub fn without_local_context(&self) -> Self {
+        Context {
+            shared: Rc::clone(&self.shared),
+            local: Rc::new(RwLock::new(LocalContext {
+                error_transform: None,
+                parent: None,
+            })),
+            locked: true,
+        }
+    }
+
     /// Removes the `ErrorSink` from the `Context` if present.
     pub fn take_error_sink(&mut self) -> Option<ErrorSink<'text>> {
         let mut shared = self.shared.write().expect("lock shared context");
